@@ -24,7 +24,7 @@ PLAN = dict(
                           "cancellation / exceptions inside node bodies are covered by C03, not generated here"],
     floor=dict(quick=300, thorough=10000),
     tiers=dict(
-        quick=[det("rel", H, "cs-rel", 16, 85, 4, tso=True, time_cap=26),
+        quick=[det("rel", H, "cs-rel", 16, 200, 4, tso=True, time_cap=45),
                det("dbg", H, "cs-dbg", 16, 35, 4, tso=True, time_cap=20),
                det("limiter-directed", H, "cs-rel", 6, 30, 4, tso=True, time_cap=12, args=["--limdir"]),
                det("witness-lightweight-wait-gap", H, "cs-rel", 2, 40, 4, tso=False, time_cap=20, args=["--witness"]),
